@@ -379,6 +379,17 @@ func (c *Ctx) RunSkeletons(opt SkelOpts) {
 			}
 		}
 	}
+	// positive controls for the skeleton rules of this property
+	if !opt.NoExpand {
+		nctl, problems := skel.RunControls(c.Prog, opt.Rules)
+		run.Count("positive_controls_run", nctl)
+		for _, p := range problems {
+			run.Undecided("CONTROL/skeleton-rules", skel.Abstract(truncate(p, 100)), "checker/internal/skel/controls.go", p)
+		}
+		if nctl > 0 && len(problems) == 0 {
+			run.Check("CONTROL/skeleton-rules", "planted-defects-reported", "checker/internal/skel/controls.go", true, "")
+		}
+	}
 	run.Count("mock_paths_interpreted", npaths)
 	run.Count("skeletons", nsk)
 	run.Count("skeletons_distinct", len(distinct))
